@@ -61,10 +61,7 @@ def gen_ops(rng, mode, clen, covered, embedded_read=False, pipe=False, maxops=12
             kind = "w" if r < 0.45 else "s" if r < 0.75 else "t" if r < 0.85 else "l" if r < 0.93 else "x"
         else:
             kind = "r" if r < 0.25 else "w" if r < 0.5 else "s" if r < 0.75 else "t" if r < 0.85 else "l" if r < 0.93 else "x"
-        if kind == "l" and covered and embedded_read:
-            kind = "t"
-        if kind == "x" and covered:
-            kind = "t"
+        # (until round 3 covered sequences avoided `l` on embedded read handles and every truncate: KF-C14-EMBED-SHORT / TRUNC-EMBED, now repaired)
         if kind == "r":
             b = rng.choice([1, 1, 1, 2, 3, 4, 8])
             i = rng.choice([0, 1, 2, 3, 7, max(0, (a.len - a.pos) // b), (a.len - a.pos) // b + 1, a.len + 5])
@@ -166,13 +163,20 @@ def stream_shim(ctx, consts, n_free, n_groups):
     # --- free cases: model vs implementation, any operation
     for k in range(n_free):
         route = rng.choice(["path", "fd", "fd", "fd", "vio", "pipe"])
-        mode = "r" if route == "pipe" else rng.choice(["r", "r", "w", "rw"])
+        mode = rng.choice(["r", "r", "w"]) if route == "pipe" else rng.choice(["r", "r", "w", "rw"])
         cd = rng.randrange(2)
         lead = rng.choice([0, 0, 1, 5, 37, 300]) if route == "fd" else 0
         trail = rng.choice([0, 0, 3, 40])
         clen = rng.choice([0, 1, 10, 43, 44, 45, 60, 200])
         content = [rng.randrange(256) for _ in range(clen)]
-        ops = gen_ops(rng, mode, clen + (trail if route != "pipe" else 0), covered=False, pipe=(route == "pipe"))
+        if route == "pipe" and mode == "w":
+            # a pipe being written: writes, tell (pipeoffset), the no-op seeks, filelen; what arrives at the other end is compared
+            ops = []
+            for _ in range(rng.randrange(1, 9)):
+                b, i = rng.choice([1, 2, 4]), rng.choice([0, 1, 3, 40])
+                ops.append(rng.choice(["w:%d:%d:%s" % (b, i, hexb([rng.randrange(256) for _ in range(b * i)])), "t", "l", "s:%d:%d" % (rng.randrange(50), rng.randrange(3))]))
+        else:
+            ops = gen_ops(rng, mode, clen + (trail if route != "pipe" else 0), covered=False, pipe=(route == "pipe"))
         name = "f%d" % k
         lines.append(shim_line(name, route, mode, cd, lead, trail if route != "pipe" else 0, content, ops))
         meta[name] = ("free", route, mode)
@@ -228,7 +232,10 @@ def stream_shim(ctx, consts, n_free, n_groups):
     # --- A': the property on the implementation's own lines
     for (names, mode, content, trail, ops) in groups:
         ref = None
+        has_trunc = any(o.startswith("x") for o in ops)
         for (name, route, lead, cd) in names:
+            if route == "vio" and has_trunc:
+                continue            # SF_VIRTUAL_IO has no truncate callback: refused there by design (theorem truncate_vio_refused_cleanly)
             l = impl.get(name, "")
             mid, f = shim_mid(l), shim_file(l)
             logical = f[2 * lead:] if f not in (None, "-") else f
@@ -386,6 +393,10 @@ def stream_public(ctx, consts, fmts, alive):
     for n, f in enumerate(fmts):
         ch = 1 if f.maxch < 2 or n % 3 else 2
         frames = rng.choice([1, 7, 64, 300]) if f.granular else rng.choice([1, 100, 700])
+        if f.granular and f.codec in (0x01, 0x05, 0x10, 0x11, 0x03) and ch == 1:
+            frames = rng.choice([1, 7, 63, 301])    # odd data length: a pad byte follows the audio (WAV, AIFF) — where sf_read_raw's clamp differed before d9097b4
+        if f.codec == 0x20 and f.major in (0x01, 0x13):
+            frames = rng.choice([640, 1280])        # WAV/GSM: an odd number of 65-byte blocks makes the pad byte an extra block (KF-WAV-GSM-PAD, C04/C11): what follows the file is then decoded
         if f.codec == 0x21:
             frames = rng.choice([4, 64, 400])       # OKI/VOX: odd item counts overrun the caller's buffer (KF-VOX-ODD, C05) on every route alike
         vals = gen_values(rng, frames * ch)
@@ -453,6 +464,12 @@ def stream_public(ctx, consts, fmts, alive):
             scripts2.append(("r|%d|vioseq" % n, read_script(f, j["ch"], j["frames"], j["filehex"], "vio", seekable=False)))
             scripts2.append(("r|%d|pipe" % n, read_script(f, j["ch"], j["frames"], j["filehex"], "pipe", seekable=False)))
         scripts2.append(("rw|%d|fdemb" % n, read_script(f, j["ch"], j["frames"], j["filehex"], "fdemb:37:0", mode="rw")))
+        # a file shorter than its header says (cut inside the audio data), bare and embedded with nothing behind it
+        if f.major in WHITELIST and f.granular and j["frames"] >= 7:
+            cut = rng.choice([1, 3, 7])
+            j["shorthex"] = j["filehex"][:-2 * cut]
+            for r in ["vio", "path", "fd0", "fdemb:37:0", "fdemb:4096:0"]:
+                scripts2.append(("s|%d|%s" % (n, r), read_script(f, j["ch"], j["frames"], j["shorthex"], r)))
     res2 = ctx.batch(scripts2, op_timeout=20, clean=True)
     s2 = dict(scripts2)
 
@@ -474,8 +491,6 @@ def stream_public(ctx, consts, fmts, alive):
             ctx.coverage["traces_validated_against_impl"] += 1
             if r.startswith("fdemb") and f.major not in WHITELIST:
                 # the container's own parser may give up first (its idea of the file length is off by the offset): any refusal will do
-                if gl and gl[0].startswith("TIMEOUT") and f.major in (0x06, 0x18) and "KF-C14-EMBED-SCAN-HANG" in alive:
-                    continue        # class: SVX / CAF chunk scanner on an embedded file followed by other bytes; signature: the open never returns
                 if not gl or not re.match(r"open=NULL err=[1-9]", gl[0]):
                     found = True
                     viol("embed-refusal-%s-%s" % (j["name"], r.replace(":", "_")),
@@ -485,9 +500,6 @@ def stream_public(ctx, consts, fmts, alive):
             want_fd = {"fd0": 1, "fd1": 0}.get(r, 0 if r.startswith("fdemb") else None)
             fdo = fd_open_of(got)
             why = None
-            if r.startswith("fdemb") and "KF-C14-EMBED-MIN44" in alive and gl and gl[0].startswith("open=NULL err=%d" % consts["badOffset"]) \
-                    and sum(int(x) for x in r.split(":")[1:]) + len(j["filehex"]) // 2 < 44:
-                continue            # class: descriptor shorter than 44 bytes; signature: SFE_BAD_OFFSET
             if gl != ref:
                 k = next((i for i in range(min(len(gl), len(ref))) if gl[i] != ref[i]), min(len(gl), len(ref)))
                 why = "line %d differs from the virtual-I/O route:\n#   vio : %s\n#   here: %s" % (k + 2, (ref[k] if k < len(ref) else "(missing)")[:300], (gl[k] if k < len(gl) else "(missing)")[:300])
@@ -509,6 +521,18 @@ def stream_public(ctx, consts, fmts, alive):
                 found = True
                 viol("pipe-%s" % j["name"], "# C14 a non-seekable pipe must deliver the same samples (WAV/AIFF/AU, sample-granular): %s\n#   vio : %s\n#   pipe: %s"
                      % (j["name"], (a0[k] if k < len(a0) else "(missing)")[:300], (b0[k] if k < len(b0) else "(missing)")[:300]), "r|%d|pipe" % n)
+        if j.get("shorthex"):
+            sref = rd("s|%d|vio" % n)
+            for r in ["path", "fd0", "fdemb:37:0", "fdemb:4096:0"]:
+                key = "s|%d|%s" % (n, r)
+                gl = rd(key)
+                ctx.count(1, tag="short-file-%s-%s" % (r.split(":")[0], FM.MAJOR_NAME.get(f.major)))
+                if gl != sref:
+                    k = next((i for i in range(min(len(gl), len(sref))) if gl[i] != sref[i]), min(len(gl), len(sref)))
+                    found = True
+                    viol("short-%s-%s" % (j["name"], r.replace(":", "_")),
+                         "# C14 a file shorter than its header says must give the same SF_INFO, samples and errors on every route (KF-C14-EMBED-SHORT, repaired): %s, route %s\n"
+                         "# line %d:\n#   vio : %s\n#   here: %s" % (j["name"], r, k + 2, (sref[k] if k < len(sref) else "(missing)")[:300], (gl[k] if k < len(gl) else "(missing)")[:300]), key)
         key = "rw|%d|fdemb" % n
         got = res2.get(key, [])
         ctx.count(1, tag="rdwr-embedded-refused")
@@ -519,6 +543,86 @@ def stream_public(ctx, consts, fmts, alive):
     ctx.notes["public_formats"] = len(jobs)
     ctx.notes["public_scripts"] = len(scripts) + len(scripts2)
     return found, jobs
+
+
+# ---------------------------------------------------------------- stream P: sf_seek / sf_read_raw against Sf.Routes (gRun)
+
+def stream_api(ctx, consts, jobs, per_job=2):
+    rng = ctx.rng
+    cand = [j for j in jobs if j.get("filehex") and j["f"].major in WHITELIST and j["f"].granular]
+    peeks = [("k|%d" % n, "store s1 %s\nopen h1 s1 r\niolog peek h1\nclose h1\n" % j["filehex"]) for n, j in enumerate(cand)]
+    pres = ctx.batch(peeks, op_timeout=20, clean=True)
+    scripts, mlines, meta = [], [], {}
+    for n, j in enumerate(cand):
+        ls = pres.get("k|%d" % n, [])
+        m = re.search(r"dataoffset=(-?\d+) datalength=(-?\d+) blockwidth=(\d+) bytewidth=(\d+)", " ".join(ls))
+        fo = re.search(r"open=ok .* frames=(\d+)", " ".join(ls))
+        if not m or not fo:
+            continue
+        doff, bw, byw, frames = int(m.group(1)), int(m.group(3)), int(m.group(4)), int(fo.group(1))
+        align = j["ch"] * max(byw, 1)
+        for rep in range(per_job):
+            ops = []
+            for _ in range(rng.randrange(2, 11)):
+                if rng.random() < 0.5:
+                    wh = rng.choice([0, 0, 1, 1, 2])
+                    base = 0 if wh == 0 else None
+                    off = rng.choice([0, 1, frames, frames + 1, -1, frames // 2, -frames, rng.randrange(-3, frames + 3)]) if wh != 2 else rng.choice([0, -1, -frames, 1, -(frames // 2)])
+                    ops.append(("s", off, wh))
+                else:
+                    k = rng.choice([1, 1, 2, frames, frames + 2, 5])      # sf_read_raw (0) returns before psf->error is reset: not modelled, not generated
+                    nbytes = k * align if rng.random() < 0.85 else k * align + rng.randrange(1, max(2, align))
+                    ops.append(("r", nbytes, 0))
+            # always end at the boundary: from the last frame, ask for three — with 1..blockwidth-1 bytes following the audio
+            # (pad byte after 24-bit mono, the first bytes of whatever follows an embedded file) the old clamp let them through
+            ops += [("s", max(frames - 1, 0), 0), ("r", 3 * align, 0)]
+            text_ops = "".join("seek h1 %d %d\n" % (o[1], o[2]) if o[0] == "s" else "rraw h1 %d\n" % o[1] for o in ops)
+            mops = ";".join("s:%d:%d" % (o[1], o[2]) if o[0] == "s" else "r:%d" % o[1] for o in ops)
+            for r in ["vio", "path", "fd0", "fdemb:1:0", "fdemb:37:9"]:
+                name = "a%d_%d_%s" % (n, rep, r.replace(":", "_"))
+                scripts.append((name, "store s1 %s\nopen h1 s1 r route=%s ext=%s\n%sclose h1\n" % (j["filehex"], r, ext_of(j["f"]), text_ops)))
+                lead, trail = (int(r.split(":")[1]), int(r.split(":")[2])) if r.startswith("fdemb") else (0, 0)
+                mroute = "vio" if r == "vio" else "path" if r == "path" else "fd"
+                mlines.append("api %s route=%s cd=%d lead=%d trail=%d content=%s dataoffset=%d blockwidth=%d align=%d frames=%d ops=%s"
+                              % (name, mroute, 0 if r == "fd0" else 1, lead, trail, j["filehex"], doff, bw, align, frames, mops))
+                meta[name] = (j["name"], r, ops)
+    if not scripts:
+        return False
+    res = ctx.batch(scripts, op_timeout=20, clean=True)
+    out = ctx.run_model(["routes"], "\n".join(mlines) + "\n")
+    model = {l.split(" ")[1]: l for l in out.split("\n") if l.startswith("api ")}
+    sd, md = dict(scripts), {l.split(" ")[1]: l for l in mlines}
+    found = False
+    for name, (jn, r, ops) in meta.items():
+        got = res.get(name, [])
+        ctx.count(1, tag="api-%s" % r.split(":")[0])
+        ctx.coverage["traces_validated_against_impl"] += 1
+        impl = []
+        for k, o in enumerate(ops):
+            l = got[2 + k] if 2 + k < len(got) else "(missing)"
+            m = re.match(r"ret=(-?\d+) err=(-?\d+)(?: data=([0-9a-f]*))?", l)
+            if not m:
+                impl.append(l)
+                continue
+            ret = int(m.group(1))
+            data = (m.group(3) or "")[:2 * max(0, ret)] if o[0] == "r" else ""
+            impl.append("ret=%d err=%s data=%s" % (ret, "0" if m.group(2) == "0" else "E", data))
+        cl = got[2 + len(ops)] if 2 + len(ops) < len(got) else ""
+        fdo = re.search(r"fd_open=(\d)", cl)
+        impl_line = "api %s open=none | %s | close=%s fd=%s" % (name, " | ".join(impl), (re.match(r"ret=(-?\d+)", cl) or [None, "?"])[1], fdo.group(1) if fdo else "-")
+        mod = re.sub(r" sent=\d$", "", model.get(name, ""))
+        if r == "path":
+            mod = re.sub(r" fd=\S+$", " fd=-", mod)       # the script interpreter cannot see the descriptor sf_open made
+        if impl_line != mod:
+            found = True
+            parts_i, parts_m = impl_line.split(" | "), mod.split(" | ")
+            k = next((i for i in range(min(len(parts_i), len(parts_m))) if parts_i[i] != parts_m[i]), min(len(parts_i), len(parts_m)))
+            capped(ctx, "api", "api-%s" % name,
+                   "# C14 sf_seek / sf_read_raw through route %s on %s: the library and Sf.Routes (gRun: sf_seek, psf_default_seek, sf_read_raw over the shim) disagree at step %d\n"
+                   "#   library: %s\n#   model  : %s\n# model case: %s\n--- script\n%s"
+                   % (r, jn, k, parts_i[k] if k < len(parts_i) else "(missing)", parts_m[k] if k < len(parts_m) else "(missing)", md[name][:300] + " …", sd[name]))
+    ctx.notes["api_cases"] = len(scripts)
+    return found
 
 
 # ---------------------------------------------------------------- stream G: the gate against the model
@@ -543,13 +647,15 @@ def stream_gate(ctx, consts, jobs):
                          % (name, mode, cd, lead, trail, f.word if (mode == "w" or f.major == 0x04) else 0, clen if mode != "w" else 0, f.major, clen, au, content))
             meta[name] = (j["name"], mode, lead, f.major)
     # the 44-byte rule at its boundary: hand-made AU/u-law files, descriptor sizes 43, 44, 45 (and the same files at offset 0)
-    for n in (18, 19, 20):
-        au_file = b".snd" + b"".join(int(x).to_bytes(4, "big") for x in (24, n, 1, 8000, 1)) + bytes((0x80 + k) & 0xFF for k in range(n))
-        for (lead, cd) in [(1, 1), (1, 0), (0, 1)]:
+    for n in (-1, 0, 1, 19, 20):
+        au_file = b".snd" + b"".join(int(x).to_bytes(4, "big") for x in (24, max(n, 0), 1, 8000, 1)) + bytes((0x80 + k) & 0xFF for k in range(max(n, 0)))
+        if n < 0:
+            au_file = au_file[:23]          # not even a header: 23 bytes behind the offset must be refused as `offset beyond end of file`
+        for (lead, cd) in [(1, 1), (1, 0)] + ([(0, 1)] if n >= 0 else []):
             name = "q%d" % k
             k += 1
-            lines.append("gate %s route=fd mode=r cd=%d lead=%d trail=0 fmt=0 clen=%d major=3 declared=%d au=1 content=%s" % (name, cd, lead, 24 + n, 24 + n, au_file.hex()))
-            meta[name] = ("au-boundary-%d" % (24 + n + lead), "r", lead, 0x03)
+            lines.append("gate %s route=fd mode=r cd=%d lead=%d trail=0 fmt=0 clen=%d major=3 declared=%d au=1 content=%s" % (name, cd, lead, len(au_file), len(au_file), au_file.hex()))
+            meta[name] = ("au-boundary-%d" % len(au_file), "r", lead, 0x03)
     # the SD2 refusal looks only at the caller's SF_INFO
     for (mode, cd) in [("r", 0), ("r", 1), ("w", 0), ("w", 1), ("rw", 1)]:
         name = "q%d" % k
@@ -593,88 +699,63 @@ def kf_witness(path):
 
 
 def stream_known(ctx, consts):
-    """replays the witnesses; returns the set of ids that still reproduce"""
+    """C14 has no open known finding since round 3: the five entries are `fixed` and run as regressions (ctx.run_regressions);
+    nothing is waived.  Returns the (empty) set of live ids; an entry added later needs its predicate here."""
     alive = set()
     for kf in ctx.known:
-        if kf.get("status") != "known":
-            continue
-        try:
-            script = kf_witness(kf["witness"])
-        except (OSError, IndexError):
-            continue
-        if kf["id"] == "KF-C14-EMBED-SCAN-HANG":
-            lines = ctx.batch([("kf", script)], op_timeout=5, workers=1).get("kf", [])
-        else:
-            lines, rc, err = ctx.script(script)
-        ctx.count(1, tag="known-" + kf["id"])
-        ok = False
-        if kf["id"] == "KF-C14-TRUNC-VIO":
-            # vio: the command fails with SFE_SYSTEM and the store keeps all frames; path: returns 0
-            cmds = [l for l in lines if l.startswith("ret=") and "data=" in l]
-            ok = len(cmds) == 2 and cmds[0].startswith("ret=-1 err=%d" % consts["system"]) and cmds[1].startswith("ret=0 err=0")
-        elif kf["id"] == "KF-C14-TRUNC-EMBED":
-            dumps = [l for l in lines if l.startswith("len=")]
-            ok = len(dumps) == 2 and int(dumps[1].split(" ")[0][4:]) != int(dumps[0].split(" ")[0][4:]) + 37
-        elif kf["id"] == "KF-C14-EMBED-SHORT":
-            opens = [l for l in lines if l.startswith("open=ok")]
-            fr = [re.search(r"frames=(\d+)", l).group(1) for l in opens]
-            ok = len(fr) == 3 and fr[1] != fr[2]
-        elif kf["id"] == "KF-C14-EMBED-MIN44":
-            opens = [l for l in lines if l.startswith("open=")]
-            ok = len(opens) == 3 and opens[1].startswith("open=ok") and opens[2].startswith("open=NULL err=%d" % consts["badOffset"])
-        elif kf["id"] == "KF-C14-EMBED-SCAN-HANG":
-            ok = any(l.startswith("TIMEOUT") for l in lines)
-        if ok:
-            alive.add(kf["id"])
-            ctx.known_finding(kf)
-        else:
-            ctx.notes.setdefault("known_not_reproduced", []).append(kf["id"])
+        if kf.get("status") == "known":
+            ctx.notes.setdefault("known_without_predicate", []).append(kf["id"])
     return alive
 
 
 def stream_truncate(ctx, consts, alive):
-    """SFC_FILE_TRUNCATE and truncated embedded files across routes: failures inside a known class with its signature are waived"""
+    """SFC_FILE_TRUNCATE across routes.  path / fd / embedded: same calls, same bytes (behind the untouched leading bytes).
+    Virtual I/O: there is no truncate callback — the command must be refused (non-zero, no error) and the file must be exactly
+    what the same calls without the command produce."""
     rng = ctx.rng
     found = False
     scripts = []
     cases = []
-    for (word, nm) in [(0x010002, "wav"), (0x020002, "aiff"), (0x030002, "au"), (0x010005, "wav-u8"), (0x030006, "au-float")]:
+    for (word, nm) in [(0x010002, "wav"), (0x020002, "aiff"), (0x030002, "au"), (0x010005, "wav-u8"), (0x030006, "au-float"), (0x040002, "raw")]:
         frames = rng.choice([20, 33, 100])
         cut = rng.randrange(1, frames)
         vals = gen_values(rng, frames)
-        for r in ["path", "fd0", "vio", "fdemb:37:0", "fdemb:4096:0"]:
+        routes = ["path", "fd0", "vio", "vio-ref"] + (["fdemb:37:0", "fdemb:4096:0"] if nm != "raw" else [])
+        for r in routes:
             key = "t|%s|%s" % (nm, r)
-            s = ("open h0 s0 w fmt=%08x ch=1 sr=8000 route=%s ext=%s\nw h0 s16 f %d %s\ncmd h0 %s 8 %s\nclose h0\ndump s0\n"
-                 % (word, r, nm.split("-")[0], frames, "".join("%04x" % v for v in vals), SFC_FILE_TRUNCATE, int(cut).to_bytes(8, "little").hex()))
+            cmd = "" if r == "vio-ref" else "cmd h0 %s 8 %s\n" % (SFC_FILE_TRUNCATE, int(cut).to_bytes(8, "little").hex())
+            s = ("open h0 s0 w fmt=%08x ch=1 sr=8000 route=%s ext=%s\nw h0 s16 f %d %s\n%sclose h0\ndump s0\n"
+                 % (word, r.replace("vio-ref", "vio"), nm.split("-")[0], frames, "".join("%04x" % v for v in vals), cmd))
             scripts.append((key, s))
             cases.append((nm, r, key))
     res = ctx.batch(scripts, op_timeout=20, clean=True)
     sd = dict(scripts)
+
+    def dump(ls):
+        m = re.match(r"len=(\d+) hex=([0-9a-f]*)", ls[-1] if ls else "")
+        return m.group(2) if m else None
     for (nm, r, key) in cases:
-        if r == "path":
+        if r in ("path", "vio-ref"):
             continue
-        ref = res.get("t|%s|path" % nm, [])
         got = res.get(key, [])
         ctx.count(1, tag="truncate-%s" % r.split(":")[0])
-        lead = int(r.split(":")[1]) if r.startswith("fdemb") else 0
-
-        def dump(ls):
-            m = re.match(r"len=(\d+) hex=([0-9a-f]*)", ls[-1] if ls else "")
-            return m.group(2) if m else None
-        a, b = dump(ref), dump(got)
-        same_calls = strip_route_noise(got[:-1]) == strip_route_noise(ref[:-1])
-        same_bytes = a is not None and b is not None and b[2 * lead:] == a and b[:2 * lead] == hexb([0x5A ^ (k & 0xFF) for k in range(lead)])
-        if same_calls and same_bytes:
-            continue
-        cmdl = next((l for l in got if "data=" in l), "")
-        if r == "vio" and "KF-C14-TRUNC-VIO" in alive and cmdl.startswith("ret=-1 err=%d" % consts["system"]):
-            continue            # class: SFC_FILE_TRUNCATE on a virtual-I/O handle; signature: -1 / SFE_SYSTEM
-        if r.startswith("fdemb") and "KF-C14-TRUNC-EMBED" in alive and same_calls and not same_bytes:
-            continue            # class: SFC_FILE_TRUNCATE on an embedded write handle; signature: all calls succeed, bytes wrong
-        found = True
-        capped(ctx, "truncate", "truncate-%s-%s" % (nm, r.replace(":", "_")),
-                      "# C14 SFC_FILE_TRUNCATE must act the same on every route: %s, route %s\n# path: %s\n# here: %s\n--- script\n%s"
-                      % (nm, r, " / ".join(ref)[:700], " / ".join(got)[:700], sd[key]))
+        if r == "vio":
+            ref = res.get("t|%s|vio-ref" % nm, [])
+            cmdl = next((l for l in got if "data=" in l), "")
+            ok = cmdl.startswith("ret=1 err=0") and dump(got) is not None and dump(got) == dump(ref)
+            why = "through virtual I/O the command must be refused (ret=1 err=0) and leave the file as if it had not been issued"
+        else:
+            ref = res.get("t|%s|path" % nm, [])
+            lead = int(r.split(":")[1]) if r.startswith("fdemb") else 0
+            a, b = dump(ref), dump(got)
+            ok = strip_route_noise(got[:-1]) == strip_route_noise(ref[:-1]) and a is not None and b is not None \
+                and b[2 * lead:] == a and b[:2 * lead] == hexb([0x5A ^ (k & 0xFF) for k in range(lead)])
+            why = "same results and same bytes as through sf_open, leading bytes of the enclosing file untouched"
+        if not ok:
+            found = True
+            capped(ctx, "truncate", "truncate-%s-%s" % (nm, r.replace(":", "_")),
+                   "# C14 SFC_FILE_TRUNCATE, %s, route %s: expected %s\n# reference: %s\n# here     : %s\n--- script\n%s"
+                   % (nm, r, why, " / ".join(ref)[:700], " / ".join(got)[:700], sd[key]))
     return found
 
 
@@ -735,6 +816,7 @@ def run(ctx):
     f2, jobs = stream_public(ctx, consts, fmts, alive)
     found |= f2
     found |= stream_gate(ctx, consts, jobs)
+    found |= stream_api(ctx, consts, jobs, per_job=2 if quick else 12)
     found |= stream_truncate(ctx, consts, alive)
 
     if failed and not found:
@@ -749,6 +831,7 @@ def run(ctx):
     ctx.sample({"stream": "shim", "cases": ctx.notes.get("shim_cases"), "model_mismatches": ctx.notes.get("shim_model_mismatches")})
     ctx.sample({"stream": "public", "formats": ctx.notes.get("public_formats"), "scripts": ctx.notes.get("public_scripts")})
     ctx.sample({"stream": "gate", "cases": ctx.notes.get("gate_cases")})
+    ctx.sample({"stream": "api (sf_seek / sf_read_raw vs gRun)", "cases": ctx.notes.get("api_cases")})
     ctx.assumptions += [
         "OS behaviour of real descriptors and pipes is exercised, not modelled beyond lseek/read/write/fstat/ftruncate/close on one regular file or one stream (partial)",
         "sf_count_t is unbounded in the model; read()/write() transfer everything available (short transfers and EINTR are C15's subject)",
